@@ -19,6 +19,9 @@ RULE = (
     "that moment (same value, or the same exception type when the edited program is invalid), "
     "and dumps() / dump(file) == concatenation of the current opcodes' data. Non-trivial = a view was read, "
     "then an edit happened, then the same view was read again; distinct = distinct histories."
+    " Also: extend / += with an iterable that fails half-way; an interpreter of one's own (plain"
+    ' or traced, custom numbering) run over the object between edit and read; Python-2 module'
+    ' names among the insertable globals; len / nb_opcodes / opcodes views.'
 )
 ASSUMPTIONS = [
     "opcode objects are drawn from a pool of classes whose encoder exists (constructed) or from "
